@@ -146,8 +146,10 @@ def check(ctx):
             for x in reversed(tr2.events[:i]):
                 if x.kind == "CALL" and x.a["func"] == fq and len(x.stack) == depth:
                     break
-                if len(x.stack) > depth and x.kind in ("REGADDR", "REGTOPCALL", "LOOKUP", "LOOP"):
-                    if x.kind != "LOOP" or any(isinstance(s, tuple) and s[:1] == ("regtop",) for s in subterms(x.a.get("iter") or ())):
+                if len(x.stack) > depth and x.kind in ("REGADDR", "REGTOPCALL", "LOOKUP", "LOOP", "COMP"):
+                    # (a loop or a comprehension counts when what it iterates over is made of whole registries)
+                    if x.kind not in ("LOOP", "COMP") or any(isinstance(s, tuple) and s[:1] == ("regtop",)
+                                                             for s in subterms(x.a.get("iter") or x.a.get("iters") or ())):
                         reads.append(x)
         # the counter is shared by every address of the factory, so the scan has to look at every address: a registry consulted for
         # one address only (registry[addr]) leaves the requests of the other addresses out
@@ -320,7 +322,7 @@ def check(ctx):
         # (the profile, a flag) leaves that registry unread for the other outcome of the test
         flagged = set()
         for x in reads:
-            rg = x.a.get("reg") or next((sub[1] for sub in subterms(x.a.get("iter") or ()) if isinstance(sub, tuple) and sub[:1] == ("regtop",)), None)
+            rg = x.a.get("reg") or next((sub[1] for sub in subterms(x.a.get("iter") or x.a.get("iters") or ()) if isinstance(sub, tuple) and sub[:1] == ("regtop",)), None)
             for c in x.conds:
                 for sub in subterms(c.term):
                     if isinstance(sub, tuple) and len(sub) == 3 and sub[0] == "attr" and sub[1] == FAC and isinstance(sub[2], str) \
@@ -335,7 +337,7 @@ def check(ctx):
         for x in reads:
             if x.a.get("reg"):
                 regs_read.add(x.a["reg"])
-            for sub in subterms(x.a.get("iter") or ()):
+            for sub in subterms(x.a.get("iter") or x.a.get("iters") or ()):
                 if isinstance(sub, tuple) and sub[:1] == ("regtop",):
                     regs_read.add(sub[1])
         need = {"queuePublishTx", "windowPublish", "windowPubRelease", "windowSubscribe", "windowUnsubscribe"}
@@ -507,8 +509,8 @@ def allocator_reads(a):
                     if len(x.stack) > depth:
                         if x.a.get("reg") and x.kind in ("REGADDR", "REGTOPCALL", "LOOKUP"):
                             regs.add(x.a["reg"])
-                        if x.kind == "LOOP":
-                            for sub in subterms(x.a.get("iter") or ()):
+                        if x.kind in ("LOOP", "COMP"):
+                            for sub in subterms(x.a.get("iter") or x.a.get("iters") or ()):
                                 if isinstance(sub, tuple) and sub[:1] == ("regtop",):
                                     regs.add(sub[1])
         if out:
